@@ -196,6 +196,18 @@ SIG = {
     "xrand.SampleIterator": ("XSampleIterator", ["zl", "z", "z"]), "xrand.Shuffle": ("XShuffle", ["zl", "z"]),
 }
 ORACLE_ONLY = {"xrand.Freq"}
+TRACE_WHICH = {"sample": 0, "slice": 1, "iterator": 2, "shuffle": 3}
+
+
+def trace_term(op, ob):
+    """xrand.Trace [which, n-or-items, k, seed, mode] with the recorded draws/swaps of the run as the oracle."""
+    which, x, k = op[1], op[2], op[3]
+    r = ob["r"]
+    draws = r[2] if r[0] == "trace" else []
+    swaps = r[3] if r[0] == "trace" else []
+    dt = "[" + "; ".join("DStop" if d[0] == "stop" else "DSkip %s %s" % (z(d[1]), z(d[2])) for d in draws) + "]"
+    n, a = (x, []) if which == "sample" else (0, x)
+    return "XTrace %d %s %s %s %s %s" % (TRACE_WHICH[which], z(n), zlist(a), z(k), dt, t_pairs(swaps))
 
 
 def call_term(op):
@@ -649,6 +661,18 @@ def oracle_call(op, ob):
             bad("unexpected-panic", "panicked (%s)" % ob.get("msg"))
         elif sorted(r[1]) != sorted(a[0]):
             bad("not-a-permutation", "returned %r" % (r[1],))
+    elif fn == "xrand.Trace":
+        which, x, k = a[0], a[1], a[2]
+        if which == "shuffle":
+            if pan or sorted(r[1]) != sorted(x):
+                bad("not-a-permutation", "returned %r" % (r[1:2],))
+        elif k >= 0 and (which != "sample" or x >= 0):
+            n = x if which == "sample" else len(x)
+            dom = range(n) if which == "sample" else x
+            if pan:
+                bad("unexpected-panic", "panicked (%s)" % ob.get("msg"))
+            elif len(r[1]) != min(k, n) or len(set(r[1])) != len(r[1]) or any(v not in dom for v in r[1]):
+                bad("wrong-structure", "returned %r" % (r[1],))
     elif fn == "xrand.Freq":
         which, n, k, draws = a[0], a[1], a[2], a[3]
         counts = r[1]
@@ -763,6 +787,9 @@ class PureSpec(SeqSpec):
         items = []
         for op, ob in zip(case["ops"], obs["obs"]):
             if op[0] in ORACLE_ONLY or ob["r"][0] == "skip":
+                continue
+            if op[0] == "xrand.Trace":
+                items.append("(%s, %s)" % (trace_term(op, ob), "RPanic" if ob["r"][0] == "panic" else "RList %s" % zlist(ob["r"][1])))
                 continue
             items.append("(%s, %s)" % (call_term(op), res_term(ob["r"])))
         if not items:
@@ -1031,6 +1058,7 @@ class XErrorsSpec(PureSpec):
 class XRandSpec(PureSpec):
     package = "xrand"
     quick_per_fn = 150
+    trace_hook = False          # set by c19.py when /repo/xmath/xrand/xrand_verif_export.go exists
 
     def universes(self, rng, tier):
         u = {}
@@ -1047,6 +1075,14 @@ class XRandSpec(PureSpec):
                                 [["xrand." + fn, items(n), k, seeds()] for n, k in ((300, 10), (100, 99), (50, 50), (50, 70), (2000, 1))])
         u["xrand.Shuffle"] = ([["xrand.Shuffle", s, seeds()] for s in all_slices(4)] + [["xrand.Shuffle", items(n), sd] for n in range(0, 9) for sd in (-1, seeds(), seeds())],
                               [["xrand.Shuffle", rand_slice(rng, 60), seeds()] for _ in range(10)])
+        if self.trace_hook:
+            treps = 2 if tier == "quick" else 25
+            u["xrand.Trace"] = ([["xrand.Trace", "sample", n, k, seeds(), m] for n, k in nk for m in range(4) for _ in range(treps)] +
+                                [["xrand.Trace", w, items(n), k, seeds(), m] for w in ("slice", "iterator") for n, k in nk for m in range(4) for _ in range(treps)] +
+                                [["xrand.Trace", "shuffle", items(n), 0, seeds(), 0] for n in range(0, 9) for _ in range(treps)] +
+                                [["xrand.Trace", "sample", 5, -1, 1, 0], ["xrand.Trace", "sample", -1, 2, 1, 0], ["xrand.Trace", "slice", items(3), -1, 1, 0]],
+                               [["xrand.Trace", "sample", n, k, seeds(), m] for n, k in ((1000, 10), (100, 99), (2000, 3), (50, 50), (50, 70)) for m in range(4)] +
+                               [["xrand.Trace", w, items(n), k, seeds(), m] for w in ("slice", "iterator") for n, k in ((300, 10), (100, 99), (50, 70), (400, 1)) for m in range(4)])
         draws = 4000 if tier == "quick" else 40000
         u["xrand.Freq"] = ([["xrand.Freq", which, n, k, draws, seeds()] for which in ("sample", "slice", "iterator")
                             for n, k in ((4, 2), (5, 3), (6, 1), (6, 5), (3, 3), (7, 2))], [])
